@@ -143,7 +143,17 @@ def refusals_harness(ctx):
             ctx.fail("retarget/refuses/" + why, "accepted")
         except ValueError:
             ctx.prove("retarget/refuses/" + why, z3.BoolVal(True))
-    rc.retarget_symbol_uses(a, bsym)
+        # a refused request leaves nothing behind: the context is as if it had never been made
+        ctx.prove("retarget/a-refused-request-is-not-recorded", z3.BoolVal(not rc._symbol_retargets), note="after the refusal of %s the recorded requests are %s" % (
+            why, {k.name: v.name for k, v in rc._symbol_retargets.items()}))
+    try:
+        rc.retarget_symbol_uses(a, bsym)
+        accepted = True
+    except ValueError as ex:
+        accepted = False
+        ctx.prove("retarget/a-valid-request-after-refused-ones-is-accepted", z3.BoolVal(False), note=str(ex))
+    if not accepted:
+        return
     ctx.prove("retarget/records-the-request", z3.BoolVal(rc._symbol_retargets == {a: bsym}))
     try:
         rc.retarget_symbol_uses(a, bsym)
